@@ -37,6 +37,14 @@ CHECKS = {
          "generated limits and the default 10 MiB, with spies proving oversize members are neither read nor written.",
          "Cost bounds are thresholds chosen in DESIGN.md, not derived from the code; amplification is sampled by family (unknown amplifiers are left to C01's fuzzers); nine design-level amplifiers "
          "(dense ODS/XLSX grids, ODT space counts, part reuse in XLSX/EPUB, solid 7z folders) are listed as known findings and excluded above their listed magnitude.", "DESIGN.md §4 C12"),
+ "C15": ("exploration", "harness-owned thread schedules over the real patch section (exhaustive DFS for 2 threads, Hypothesis-drawn for 3-4), Hypothesis histories with a global-state snapshot, preemptive stress",
+         "pypdf._page's module class is swapped so that every read/write of build_char_map by a controlled thread is a scheduling point; all choice sequences for 2 threads and drawn ones for 3-4 threads run the "
+         "real _extract_text_with_spacing on CID-font pages whose digits depend on the patch; oracle: per-thread text equals the single-thread baseline and the function object is restored. Histories: drawn sequences "
+         "(exhaust/abandon/close) over 50 fixtures and generated documents incl. failing and state-sharing pairs; after each step digest == fresh-process baseline and snapshot (pypdf function identity, archive config, "
+         "mimetypes, private temp root, fds, threads, recursion limit, cwd, environ, warnings filters) == snapshot before the first extraction; all ordered pairs of state-sharing PDFs in cold processes. "
+         "Stress: 8 threads at 1 us switch interval over drawn workloads.",
+         "Scheduling points are the accesses of the patched attribute only; interleavings inside third-party C code and at bytecode level are only sampled by the stress part, which is schedule-dependent (reports need "
+         "two reproductions). k>=3 is sampled, not exhaustive. One-way initialisations that do not change results are allowed.", "DESIGN.md §4 C15"),
  "C11": ("exploration", "exhaustive boundary lattice + Hypothesis vectors against an exact-rational reference predicate; forged real ZIP packages with an open/validate event monitor",
          "validate_zipfile is compared with an independently written reference on the complete single-clause boundary lattice and on tens of thousands of generated (entries, limits) vectors built "
          "around the thresholds; 12 real package kinds get extra members with forged central-directory sizes on either side of each DEFAULT limit (incl. 50 000/50 001 entries) and must be rejected "
